@@ -571,7 +571,7 @@ def check_C02(args):
 
     def extra_cov(scenarios, traces):
         return dict({"async_kill_directories": kst["dirs"], "async_kills": kst["kills"], "async_kill_acked_points": kst["acked"],
-                     "async_kill_points_in_flight": kst["in_flight"]}, **pst)
+                     "async_kill_points_in_flight": kst["in_flight"]}, **dict(pst, **{k: v for k, v in kst.items() if k.startswith("pipeline_trace")}))
 
     return store_check(args, "C02", mc_jobs, gen, ALL_INVS, CODE_FLAGS["ArrayDup"],
                        ["crash = loss of volatile state at a hook point (process-kill model; page cache survives)",
@@ -703,7 +703,8 @@ def kill_part(pid, V, rng, quick, st):
         for rnd in range(3):
             pts = menu[rnd * 6:(rnd + 1) * 6]
             stop_after = r.randint(0, len(pts))           # acks to wait for before the kill
-            p = subprocess.Popen([zk, "-mode", "run", "-dir", data], stdin=subprocess.PIPE, stdout=subprocess.PIPE, stderr=subprocess.DEVNULL, text=True)
+            p = subprocess.Popen([zk, "-mode", "run", "-dir", data, "-rec", os.path.join(d, "rec%d.ndjson" % rnd), "-life", "d%dr%d" % (di, rnd)],
+                                 stdin=subprocess.PIPE, stdout=subprocess.PIPE, stderr=subprocess.DEVNULL, text=True)
             p.stdin.write(json.dumps({"tables": [t.define() for t in tables], "points": [render(x) for x in pts], "paceUs": r.choice([0, 200, 2000])}))
             p.stdin.close()
             begun = None
@@ -737,17 +738,38 @@ def kill_part(pid, V, rng, quick, st):
             if begun is not None:
                 inflight.append(begun)
                 during += 1
-        v = subprocess.run([zk, "-mode", "verify", "-dir", data], input=json.dumps({"tables": [t.define() for t in tables], "expect": 0}),
+        v = subprocess.run([zk, "-mode", "verify", "-dir", data, "-rec", os.path.join(d, "rec3.ndjson"), "-life", "d%dr3" % di],
+                           input=json.dumps({"tables": [t.define() for t in tables], "expect": 0}),
                            stdout=subprocess.PIPE, stderr=subprocess.PIPE, text=True, timeout=120)
         rep = None
         for line in v.stdout.splitlines():
             if line.startswith('{"a":"Verify"'):
                 rep = json.loads(line)
+        # the hook events of the four incarnations, in order (a line cut short by the kill is dropped)
+        evs = []
+        for rnd in range(4):
+            fn = os.path.join(d, "rec%d.ndjson" % rnd)
+            if os.path.exists(fn):
+                for line in open(fn):
+                    try:
+                        e = json.loads(line)
+                    except ValueError:
+                        continue
+                    e["seq"] += (di * 4 + rnd) * 10 ** 7
+                    e["killed_before"] = rnd > 0          # the previous incarnation on this directory was killed
+                    evs.append(e)
         shutil.rmtree(d, ignore_errors=True)
-        return di, menu, acked, inflight, kills, during, rep, v.stderr[:2500]
+        return di, menu, acked, inflight, kills, during, rep, v.stderr[:2500], evs
 
     with ThreadPoolExecutor(8) as ex:
         results = list(ex.map(one, jobs))
+    all_evs = [e for r_ in results for e in r_[8]]
+    results = [r_[:8] for r_ in results]
+    if all_evs:
+        # (T) the free-running incarnations, event by event, against spec/TracePipe.tla: every
+        # pipeline and flush step, and after each kill the resume point of every table
+        import pipe_checks
+        pipe_checks.events_part(pid, V, all_evs, work, st, "kill", "the child processes killed asynchronously")
     for di, menu, acked, inflight, kills, during, rep, err in results:
         if rep is None:
             m = re.search(r"^(?:panic|fatal error): (.*)$", err, re.M)
